@@ -359,7 +359,7 @@ PoolC10 == <<
   MTag("</a>"),                                     \* 10            END_LINK
   MTag("<br/>"),                                    \* 11            BREAK
   MText("t"),                                       \* 12
-  MText("u v") >>                                   \* 13
+  MText(" u ") >>                                   \* 13  (spaces are part of the text)
 
 (***************************************************************************)
 (* Bounded case families (descriptors, so that TLC enumerates index        *)
